@@ -2544,9 +2544,17 @@ def gen_loop(repo, status, write):
         if not (fbody[0] == "block" and tail is not None and tail[0] == "mcall" and tail[2] == "with_transaction" and tail[3] and tail[3][0][0] == "closure"):
             raise Untranslatable("decode_next_picture is not `reader.with_transaction(|reader| { .. })`")
         stmts = tail[3][0][2][1]
-        li = [i for i, st in enumerate(stmts) if st[0] == "expr" and st[1][0] == "loop"]
+        li = [i for i, st in enumerate(stmts) if st[0] == "expr" and st[1][0] in ("loop", "while")]
         if len(li) != 1:
             raise Untranslatable("the macroblock loop")
+        if stmts[li[0]][1][0] == "while":
+            # `while c { body }` is `loop { if !c { break; } body }`
+            wc, wb = stmts[li[0]][1][1], stmts[li[0]][1][2]
+            if wb[0] != "block":
+                raise Untranslatable("while body")
+            guard = ("expr", ("if", ("un", "!", ("paren", wc)), ("block", [("expr", ("break",))], None), None))
+            stmts = list(stmts)
+            stmts[li[0]] = ("expr", ("loop", ("block", [guard] + list(wb[1]), wb[2])))
         lbody = stmts[li[0]][1][1]
         if lbody[0] != "block":
             raise Untranslatable("loop body")
@@ -2556,9 +2564,8 @@ def gen_loop(repo, status, write):
             mi = [i for i, st in enumerate(lst) if st[0] == "let" and st[3] is not None and st[3][0] == "match" and st[3][1] == ("var", "mb")]
             if len(mi) != 1:
                 raise Untranslatable("`let .. = match mb { .. }` in the loop")
-            pre = [st for st in lst[:mi[0]] if st[0] == "let" and st[1] in (("pid", "pos"), ("pid", "motion_vectors"))]
-            if len(pre) != 2:
-                raise Untranslatable("`let pos` / `let mut motion_vectors` before the match")
+            # the locals computed before the match (position, fresh vector array, ..), but not the parser call that is matched on
+            pre = [st for st in lst[:mi[0]] if st[0] == "let" and not contains_call(st, "decode_macroblock")]
             arms = [a for a in lst[mi[0]][3][2] if a[0][0] == "pctor" and a[0][1] == ["Ok"] and len(a[0][2]) == 1 and a[0][2][0][0] == "pstruct"
                     and a[0][2][0][1] == ["Macroblock", "Coded"]]
             if len(arms) != 1 or arms[0][1] is not None or arms[0][2][0] != "block":
@@ -2818,6 +2825,7 @@ def gen_state(repo, status, write):
             rt3 = "(picture * Z * source_format * (Z * Z) * Z * Z * (Z * Z))"
             lt, ln, code3 = em3.resolve_lifted(code3, rt3)
             body += "\n" + "".join(em3.finish(l) + "\n" for l in lt)
+            body += "Create HintDb pgenstate.\n" + "".join("#[global] Hint Unfold %s : pgenstate.\n" % n for n in ln)
             body += "Definition p_prologue (a_self : state) (r0 : reader) : res (%s * reader) :=\n  %s.\n" % (rt3, em3.finish(code3))
             body = body.replace("From H263V Require Import base.Prelude base.Checked model.Types", "From H263V Require Import model.F64.\nFrom H263V Require Import base.Prelude base.Checked model.Types", 1) if "model.F64" not in body else body
             status[key] = "ok"
